@@ -190,6 +190,55 @@ func getFileNameForType(typePrefix string, headerType HeaderFooterType) string {
 	}
 }
 
+// headerFooterFileName 为新的页眉/页脚选择部件文件名：通常是本库固定的名字；但打开的文档（其他软件生成）
+// 可能把这个名字用在另一种类型上（例如 Word 在奇偶页不同时让 header1.xml 作为偶数页页眉），
+// 这时覆盖它会改掉另一种类型的页眉/页脚内容，所以改用第一个空闲的编号文件名。
+func (d *Document) headerFooterFileName(typePrefix string, kind HeaderFooterType) string {
+	name := getFileNameForType(typePrefix, kind)
+	if !d.headerFooterPartShownForOtherKind(typePrefix, name, kind) {
+		return name
+	}
+	for i := 2; ; i++ {
+		candidate := fmt.Sprintf("%s%d.xml", typePrefix, i)
+		if _, exists := d.parts["word/"+candidate]; !exists {
+			return candidate
+		}
+	}
+}
+
+// headerFooterPartShownForOtherKind 判断 word/<name> 是否已存在并被其他类型的页眉/页脚引用使用
+func (d *Document) headerFooterPartShownForOtherKind(typePrefix, name string, kind HeaderFooterType) bool {
+	if _, exists := d.parts["word/"+name]; !exists || d.documentRelationships == nil || d.Body == nil {
+		return false
+	}
+	ids := make(map[string]bool)
+	for _, rel := range d.documentRelationships.Relationships {
+		if strings.HasSuffix(rel.Type, "/"+typePrefix) && (rel.Target == name || rel.Target == "/word/"+name) {
+			ids[rel.ID] = true
+		}
+	}
+	for _, element := range d.Body.Elements {
+		sectPr, ok := element.(*SectionProperties)
+		if !ok || sectPr == nil {
+			continue
+		}
+		if typePrefix == "header" {
+			for _, ref := range sectPr.HeaderReferences {
+				if ref != nil && ids[ref.ID] && ref.Type != string(kind) {
+					return true
+				}
+			}
+		} else {
+			for _, ref := range sectPr.FooterReferences {
+				if ref != nil && ids[ref.ID] && ref.Type != string(kind) {
+					return true
+				}
+			}
+		}
+	}
+	return false
+}
+
 // AddHeader 添加页眉
 func (d *Document) AddHeader(headerType HeaderFooterType, text string) error {
 	header := createStandardHeader()
@@ -220,7 +269,7 @@ func (d *Document) AddHeader(headerType HeaderFooterType, text string) error {
 	fullXML := append([]byte(xml.Header), headerXML...)
 
 	// 获取文件名
-	fileName := getFileNameForType("header", headerType)
+	fileName := d.headerFooterFileName("header", headerType)
 	headerPartName := fmt.Sprintf("word/%s", fileName)
 
 	// 存储页眉内容
@@ -273,7 +322,7 @@ func (d *Document) AddFooter(footerType HeaderFooterType, text string) error {
 	fullXML := append([]byte(xml.Header), footerXML...)
 
 	// 获取文件名
-	fileName := getFileNameForType("footer", footerType)
+	fileName := d.headerFooterFileName("footer", footerType)
 	footerPartName := fmt.Sprintf("word/%s", fileName)
 
 	// 存储页脚内容
@@ -352,7 +401,7 @@ func (d *Document) AddHeaderWithPageNumber(headerType HeaderFooterType, text str
 	fullXML := append([]byte(xml.Header), headerXML...)
 
 	// 获取文件名
-	fileName := getFileNameForType("header", headerType)
+	fileName := d.headerFooterFileName("header", headerType)
 	headerPartName := fmt.Sprintf("word/%s", fileName)
 
 	// 存储页眉内容
@@ -431,7 +480,7 @@ func (d *Document) AddFooterWithPageNumber(footerType HeaderFooterType, text str
 	fullXML := append([]byte(xml.Header), footerXML...)
 
 	// 获取文件名
-	fileName := getFileNameForType("footer", footerType)
+	fileName := d.headerFooterFileName("footer", footerType)
 	footerPartName := fmt.Sprintf("word/%s", fileName)
 
 	// 存储页脚内容
@@ -590,7 +639,7 @@ func (d *Document) AddFormattedHeader(headerType HeaderFooterType, config *Heade
 	fullXML := append([]byte(xml.Header), headerXML...)
 
 	// 获取文件名
-	fileName := getFileNameForType("header", headerType)
+	fileName := d.headerFooterFileName("header", headerType)
 	headerPartName := fmt.Sprintf("word/%s", fileName)
 
 	// 存储页眉内容
@@ -655,7 +704,7 @@ func (d *Document) AddFormattedFooter(footerType HeaderFooterType, config *Heade
 	fullXML := append([]byte(xml.Header), footerXML...)
 
 	// 获取文件名
-	fileName := getFileNameForType("footer", footerType)
+	fileName := d.headerFooterFileName("footer", footerType)
 	footerPartName := fmt.Sprintf("word/%s", fileName)
 
 	// 存储页脚内容
